@@ -446,7 +446,7 @@ func diffWire(got, want []*refcodec.Packet) string {
 
 // C20: client library.
 func C20(c *core.Ctx) {
-	c.Rep.Bound = "ENUM: CONNACK answers (codes 0-5 x SessionPresent, malformed, truncated, close, silence until the virtual connect timeout); HIST: Subscribe/Unsubscribe requests over filters {a, a/+, b} and scripted-server SUBACK (granting / refusing) / UNSUBACK / PUBLISH (4 topics, QoS 0-2, DUP) / PUBREL, BFS de-duplicated on the request states to depth 6 (quick) / 8 (thorough) and every sequence to depth 4/5"
+	c.Rep.Bound = "ENUM: CONNACK answers (codes 0-5 x SessionPresent, malformed, truncated, close, silence until the virtual connect timeout); HIST: Subscribe/Unsubscribe requests over filters {a, a/+, b} and scripted-server SUBACK (granting / refusing) / UNSUBACK / PUBLISH (4 topics, QoS 0-2, DUP) / PUBREL, BFS de-duplicated on the request states to depth 6 (quick) / 8 (thorough) and every sequence to depth 4/5; a delivery for every remaining length 5..300"
 	c.Rep.Rule = "Connect returns nil iff CONNACK code 0, otherwise the refusal code or an error, no library goroutine left and the socket closed; the message callback of a request is invoked once per delivered message whose topic matches an active (granted, not unsubscribed) filter of that request, QoS 2 duplicates suppressed, never for other topics; acknowledgements on the wire per packet (C02, client role); completion callbacks exactly once, not before the acknowledgement"
 	if c.Replay != nil {
 		fmt.Println("replay:", c.Replay.Scenario, "\n ", c.Replay.Message)
@@ -481,6 +481,36 @@ func C20(c *core.Ctx) {
 	}
 	c.Rep.Scenarios++
 	c.Rep.Sample(map[string]interface{}{"search": "connack", "cases": len(connackCases())})
+	// framing: a delivery for every remaining length 5..300 (the length field has
+	// boundaries of its own: 127/128, multiples of 128)
+	for base := 5; base <= 300; base += 8 {
+		if c.NShards > 1 && (base/8)%c.NShards != c.Shard {
+			continue
+		}
+		if c.Expired() || c.HasViolation() {
+			return
+		}
+		all := []cop{{kind: "api:sub", filters: []string{"a"}, qoss: []byte{1}}, {kind: "srv:suback"}}
+		hist := []int{0, 1}
+		for L := base; L < base+8 && L <= 300; L++ {
+			// QoS 0: remaining length = 2 + len("a") + payload; QoS 1: two more
+			all = append(all, cop{kind: "srv:pub", topic: "a", qos: 0, payload: big(L-3, byte(L))})
+			hist = append(hist, len(all)-1)
+			all = append(all, cop{kind: "srv:pub", topic: "a", qos: 1, id: uint16(1000 + L), payload: big(L-5, byte(L+1))})
+			hist = append(hist, len(all)-1)
+		}
+		v, _, steps := runDispatch(all, hist, false)
+		c.Rep.Evaluations++
+		c.Rep.Executions++
+		c.Rep.States++
+		c.Rep.Transitions += int64(steps)
+		if v != "" {
+			if c.Violate("C20 framing :: "+violClass(v), core.Replay{Scenario: fmt.Sprintf("framing: deliveries with remaining lengths %d..%d", base, base+7), Message: v}) {
+				return
+			}
+		}
+	}
+	c.Rep.Scenarios++
 	ops := dispatchOps(c.Thorough())
 	overlapKnown = c.Known[KnownOverlap]
 	overlapHits = 0
